@@ -1,2 +1,71 @@
 #![allow(warnings, clippy::all, clippy::pedantic, clippy::nursery)]
+//@ module: backend::dry_run
 use super::*;
+use crate::error::verif_harness as vh;
+use crate::error::verif_harness::{MockBe, ModelKey};
+use crate::backend::decrypt::DecryptBackend;
+use std::sync::{Arc, atomic::Ordering::SeqCst};
+
+static SERVE: [u8; 4] = [b'{', 1, 2, 3];
+
+//@ harness: c15_dry_run_never_mutates
+//@ prop: C15
+//@ tier: quick
+//@ timeout: 900
+//@ mem: 10
+//@ kernel: DryRunBackend::{new, write_bytes, remove, create, hash_write_full, set_zstd, set_extra_verify, read_full, read_partial, list_with_size}, DecryptWriteBackend::hash_write_full_uncompressed (provided method, through DryRunBackend::write_bytes)
+//@ bound: one call of each mutating entry point chosen symbolically, with symbolic dry_run flag, file type, id byte, cacheable flag and a 3-byte JSON payload; inner backend = real DecryptBackend<ModelKey> over a counting mock store
+//@ oracle: dry_run => the inner store sees no write_bytes / remove / create at all and the call still reports success; !dry_run => the call is forwarded (exactly one mutation reaches the store); reads are forwarded unchanged in both modes; set_zstd / set_extra_verify do not touch the wrapped backend's settings in dry-run mode
+//@ stub: ModelKey; crypto::hasher::hash -> H'; Backtrace::capture; fmt::format
+//@ outside: commands' own dry-run switches (prune/forget/repair/copy options) and TreeModifier's dry run (owns a packer thread)
+#[kani::proof]
+#[kani::unwind(40)]
+#[kani::stub(std::backtrace::Backtrace::capture, crate::error::verif_harness::stub_backtrace_capture)]
+#[kani::stub(alloc::fmt::format, crate::error::verif_harness::stub_format)]
+#[kani::stub(crate::crypto::hasher::hash, crate::error::verif_harness::stub_hash)]
+pub(crate) fn c15_dry_run_never_mutates() {
+    let store = Arc::new(MockBe::new(true, 7, &SERVE));
+    let inner = DecryptBackend::new(store.clone() as Arc<dyn WriteBackend>, ModelKey);
+    let dry: bool = kani::any();
+    let mut be = DryRunBackend::new(inner, dry);
+    let tpe = vh::any_tpe();
+    let id = vh::mk_id(kani::any());
+    let cacheable: bool = kani::any();
+    let payload: &'static mut [u8; 3] = Box::leak(Box::new(kani::any()));
+    payload[0] = b'{';
+    let which: u8 = kani::any();
+    kani::assume(which < 6);
+    let mut expect_mut = 1u8;
+    match which {
+        0 => { let r = be.write_bytes(tpe, &id, cacheable, Bytes::from_static(&*payload).into()); assert!(r.is_ok()); std::mem::forget(r); }
+        1 => { let r = be.remove(tpe, &id, cacheable); assert!(r.is_ok()); std::mem::forget(r); }
+        2 => { let r = be.create(); assert!(r.is_ok()); std::mem::forget(r); }
+        3 => { let r = be.hash_write_full(tpe, &*payload); assert!(r.is_ok()); std::mem::forget(r); }
+        4 => { let r = be.hash_write_full_uncompressed(tpe, &*payload); assert!(r.is_ok()); std::mem::forget(r); }
+        _ => {
+            be.set_zstd(Some(3));
+            be.set_extra_verify(true);
+            expect_mut = 0;
+            let (z, ev) = crate::backend::decrypt::verif_harness::settings(&be.be);
+            if dry { assert!(z.is_none() && !ev); } else { assert!(z == Some(3) && ev); }
+        }
+    }
+    if dry {
+        assert!(store.mutations() == 0);
+        assert!(store.present.load(SeqCst) && store.tag.load(SeqCst) == 7);
+        kani::cover!(which == 3, "dry-run hash_write_full");
+        kani::cover!(which == 1, "dry-run remove");
+    } else {
+        assert!(store.mutations() == expect_mut);
+        kani::cover!(which == 4, "real uncompressed write forwarded");
+    }
+    // reads are forwarded in both modes
+    let r = be.read_full(tpe, &id).unwrap();
+    assert!(r.len() == 4 && r[0] == b'{');
+    std::mem::forget(r);
+    let r = be.read_partial(tpe, &id, cacheable, 1, 2).unwrap();
+    assert!(r.len() == 2 && r[0] == 1);
+    std::mem::forget(r);
+    assert!(store.n_read_full.load(SeqCst) == 1 && store.n_read_partial.load(SeqCst) == 1);
+    std::mem::forget(be); std::mem::forget(store);
+}
